@@ -61,7 +61,7 @@ def _check_clause(clause: dict, clause_id: str) -> None:
     keywords = ["constant", "coefficients"]
     for kw in keywords:
         if kw not in clause:
-            ContractFormatError(f'Keyword "{kw}" not found in {clause_id}')
+            raise ContractFormatError(f'Keyword "{kw}" not found in {clause_id}')
         value = clause[kw]
         if kw == "coefficients":
             if not isinstance(value, dict):
